@@ -64,7 +64,7 @@ fn preserved(before: &T, after: &T, added: usize) -> Option<String> {
 }
 
 pub fn run(ctx: &mut Ctx) {
-    let total = ctx.n(12_000, 200_000);
+    let total = ctx.n(12_000, 1_000_000);
     for case in ctx.cases(total) {
         ctx.begin_case(case);
         let mut rng = ctx.rng(case);
